@@ -2,4 +2,4 @@ From Coq Require Import Extraction ExtrOcamlBasic.
 From CAres.Dsa Require Import Array.
 From CAres.Gen Require Import Consts.
 Extraction Language OCaml.
-Extraction "../ocaml/gen/DsaModel.ml" arr_create arr_len arr_abs a_cells a_off arr_step aspec_step arr_run aspec_run ARES_ENOMEM.
+Extraction "../ocaml/gen/DsaModel.ml" arr_create arr_len arr_abs a_cells a_off arr_step aspec_step arr_run aspec_run arr_finish ARES_ENOMEM.
